@@ -168,9 +168,18 @@ def tags_of(case, o):
     return []
 
 
+def corpus_case(j):
+    w = L.world_from_files(j["files"], j["string"])
+    names = [f.name for f in w["files"]]
+    c = {"kind": j["kind"], "world": w, "sites": [{"file": names.index(s["file"]), "pos": s["offset"], "name": s.get("name")} for s in j["sites"]]}
+    if "searched" in j:
+        c["searched"] = names.index(j["searched"])
+    return c
+
+
 def build_cases(chk):
-    n = 1200 if chk.thorough else 260
-    cases = []
+    n = 1200 if chk.thorough else 220
+    cases = [corpus_case(j) for _, j in L.corpus_files("C28")]      # corpus first
     fixed = ["unresolvable", "nonunique-import", "nonunique-local", "unknown", "syntax-garbage", "syntax-drop"]
     for i, k in enumerate(fixed * 2):       # every kind is always present
         cases.append(gen_case(chk.rng.split("fixed%d" % i), k))
